@@ -26,14 +26,14 @@ Print Assumptions C06_roundtrip_feature.
 (* THE WHOLE OBJECT (roundtrip_state), any number of features, any class:
    to_json -> json.dumps -> json.loads -> load_carver / load_discretizer succeeds and the
    reloaded state has the same features, the same values_orders (each content dict in list
-   order), the same other attributes and, for a carver, the same _history attribute *)
+   order), the same other attributes and the same _history attribute *)
 Theorem C06_roundtrip_state : forall jk ps s,
   state_ok jk ps s -> json_clean (st_meta s) -> json_clean (st_history s) ->
   exists s', load ps (file_trip jk (to_json jk s)) = Ok s' /\
              st_features s' = st_features s /\
              st_vo s' = normalise_vo (st_vo s) /\
              st_meta s' = st_meta s /\
-             (st_class s = KCarver -> st_history s' = st_history s).
+             st_history s' = st_history s.
 Proof. exact roundtrip_state. Qed.
 Print Assumptions C06_roundtrip_state.
 
@@ -56,31 +56,27 @@ Theorem C06_normalise :
 Proof. exact (conj normalise_ordered normalise_idem). Qed.
 Print Assumptions C06_normalise.
 
-(* IDEMPOTENCE, Discretizer family (roundtrip_idempotent): with content dicts in list order the
-   reloaded object has the very same values_orders and serialises to the same JSON again *)
+(* IDEMPOTENCE, EVERY CLASS (roundtrip_idempotent), after the repairs 706e270 (a reloaded carver
+   writes its history again) and 1da3036 (content written in list order): the reloaded object
+   serialises to the very same JSON, whatever the order of the content dicts; a carver must have a
+   history (json null would be dropped).  If the content dicts are in list order the reloaded
+   values_orders is even the original one. *)
 Theorem C06_roundtrip_idempotent : forall jk ps s,
-  st_class s = KDiscretizer -> state_ok jk ps s -> json_clean (st_meta s) ->
-  (forall f g, In (f, g) (st_vo s) -> ordered g) ->
+  state_ok jk ps s -> json_clean (st_meta s) -> json_clean (st_history s) ->
+  (st_class s = KCarver -> st_history s <> JNone) ->
   exists s', load ps (file_trip jk (to_json jk s)) = Ok s' /\
+             to_json jk s' = to_json jk s /\
              file_trip jk (to_json jk s') = file_trip jk (to_json jk s) /\
-             st_vo s' = st_vo s.
+             ((forall f g, In (f, g) (st_vo s) -> ordered g) -> st_vo s' = st_vo s).
 Proof. exact roundtrip_idempotent. Qed.
 Print Assumptions C06_roundtrip_idempotent.
 
-(* IDEMPOTENCE IS FALSE FOR EVERY CARVER (observation O6): load_carver returns a BaseDiscretizer,
-   whose to_json() has no "_history"; the second JSON never equals the first *)
-Theorem C06_idempotent_carver_refuted : forall jk ps s s',
-  st_class s = KCarver -> load ps (file_trip jk (to_json jk s)) = Ok s' ->
-  j_history (file_trip jk (to_json jk s')) = None /\
-  j_history (file_trip jk (to_json jk s)) <> None /\
-  file_trip jk (to_json jk s') <> file_trip jk (to_json jk s).
-Proof.
-  exact (fun jk ps s s' Hc Hl =>
-           match carver_reload_drops_history jk ps s s' Hc Hl with
-           | conj H1 H2 => conj H1 (conj H2 (roundtrip_idempotent_carver_refuted jk ps s s' Hc Hl))
-           end).
-Qed.
-Print Assumptions C06_idempotent_carver_refuted.
+(* the written document does not depend on the order of the content dict (no hypothesis) *)
+Theorem C06_serialize_normalise :
+  (forall g, serialize_feature (normalise g) = serialize_feature g) /\
+  (forall jk vo, vo_text jk (normalise_vo vo) = vo_text jk vo).
+Proof. exact (conj serialize_normalise vo_text_normalise). Qed.
+Print Assumptions C06_serialize_normalise.
 
 (* plain JSON data (distinct string keys at every level) goes through json.dumps / json.loads
    unchanged: this is what carries the other attributes and the history *)
@@ -116,10 +112,11 @@ Theorem C06_witness_str_differs_from_key :   (* str(reloaded number) <> key writ
 Proof. exact witness_str_differs_from_key. Qed.
 Print Assumptions C06_witness_str_differs_from_key.
 
-Theorem C06_witness_unordered_content :      (* content dict not in list order: second dump differs *)
+Theorem C06_witness_unordered_content :      (* content dict not in list order: only st_vo s' = st_vo s needs `ordered` *)
   trip_ok_b w_jk w_jk w_unordered = true /\
   roundtrip_gl w_jk w_jk w_unordered = Ok (normalise w_unordered) /\
-  dumps w_jk (serialize_feature (normalise w_unordered)) <> dumps w_jk (serialize_feature w_unordered).
+  normalise w_unordered <> w_unordered /\
+  dumps w_jk (serialize_feature (normalise w_unordered)) = dumps w_jk (serialize_feature w_unordered).
 Proof. exact witness_unordered_content. Qed.
 Print Assumptions C06_witness_unordered_content.
 
@@ -137,11 +134,11 @@ Print Assumptions C06_checker_sound.
    boundaries, +inf, __NAN__) and a qualitative one (numeric member 1 next to "1", default group) *)
 Example C06_nonvacuous :
   state_ok w_jk w_jk (ex_state KDiscretizer) /\ json_clean (st_meta (ex_state KDiscretizer)) /\
-  (forall f g, In (f, g) (st_vo (ex_state KDiscretizer)) -> ordered g) /\
   load w_jk (file_trip w_jk (to_json w_jk (ex_state KDiscretizer))) =
-    Ok (mkState KDiscretizer [VStr "q"; VStr "c"] [(VStr "q", ex_quant); (VStr "c", ex_qual)] ex_meta JNone) /\
-  state_ok w_jk w_jk (ex_state KCarver) /\
+    Ok (ex_state KDiscretizer) /\
+  state_ok w_jk w_jk (ex_state KCarver) /\ json_clean (st_history (ex_state KCarver)) /\
+  st_history (ex_state KCarver) <> JNone /\
   (exists s', load w_jk (file_trip w_jk (to_json w_jk (ex_state KCarver))) = Ok s' /\
-              st_vo s' = st_vo (ex_state KCarver) /\
-              file_trip w_jk (to_json w_jk s') <> file_trip w_jk (to_json w_jk (ex_state KCarver))).
+              st_vo s' = st_vo (ex_state KCarver) /\ st_history s' = st_history (ex_state KCarver) /\
+              to_json w_jk s' = to_json w_jk (ex_state KCarver)).
 Proof. exact example_nonvacuous. Qed.
